@@ -799,7 +799,7 @@ def run(R, escalate=False):
     rng = R.rng
     R.rule = ("call histories over {open, close, generic_message connected (echo / error reply) and unconnected, with-block with and without "
               "exception, read (LogixDriver) / unconnected with route (CIPDriver)} x {CIPDriver, LogixDriver(init_tags=False)} x policies {large FO ok, "
-              "large refused, all FO refused, session refused}: all histories up to length 3 (thorough: 4) without fault, single faults at "
+              "large refused, all FO refused, session refused}: all histories up to length 3 (thorough: 4; LogixDriver at length 4: one policy drawn per history) without fault, single faults at "
               "every socket call position of sampled (thorough: all length<=3, sampled length 4) histories, random longer histories over a wider "
               "alphabet with 0-2 faults, error injections, routes, expected-route refusals; non-trivial = distinct case in which at least one frame reached the target")
     tp = T.TargetProc("targetcore")
@@ -815,7 +815,7 @@ def run(R, escalate=False):
             alpha = alphabet(logix)
             for n in range(1, maxlen + 1):
                 for hist in itertools.product(alpha, repeat=n):
-                    pols = list(POLICIES) if n <= 3 else [rng.choice(list(POLICIES))]
+                    pols = list(POLICIES) if (n <= 3 or not logix) else [rng.choice(list(POLICIES))]
                     for pol in pols:
                         seed += 1
                         case = mk_case(logix, pol, hist, seed=seed)
